@@ -251,7 +251,7 @@ func (g *Gen) callbackInvariants(c *ssa.CallCommon, ins ssa.Instruction, assert 
 	}
 }
 
-func (g *Gen) applyCallbacks(c *ssa.CallCommon) {
+func (g *Gen) applyCallbacks(c *ssa.CallCommon, ins ssa.Instruction) {
 	for _, a := range c.Args {
 		mc, ok := a.(*ssa.MakeClosure)
 		if !ok {
@@ -263,6 +263,44 @@ func (g *Gen) applyCallbacks(c *ssa.CallCommon) {
 			continue
 		}
 		fn := mc.Fn.(*ssa.Function)
+		if con := g.P.cs.Funcs[canon(fn)]; con != nil && con.hasFrame() && len(con.Requires) == 0 {
+			// the closure has its own frame contract (checked on its body unless `assumed`): havoc exactly that
+			g.assumedUsedNote(con)
+			save := g.cloBind
+			g.cloBind = map[string]ssa.Value{}
+			for i, fv := range fn.FreeVars {
+				if i < len(mc.Bindings) {
+					g.cloBind[fv.Name()] = mc.Bindings[i]
+				}
+			}
+			pre := copyState(g.cur)
+			envM := g.calleeEnv(map[string]Term{}, ins)
+			envM.siblingScope = true
+			envM.st = pre
+			envM.old = pre
+			if !con.Pure {
+				g.bumpAlloc()
+				for _, m := range con.Modifies {
+					g.applyModifies(m, envM, calleeInfo{kind: "closure", key: canon(fn), fn: fn, sig: fn.Signature})
+				}
+			}
+			// postconditions that do not mention the pre-state hold after the last run, if it ran at all
+			ran := g.newConst("cbran", "Bool")
+			for _, en := range con.Ensures {
+				if strings.Contains(en.Text, "old(") {
+					continue
+				}
+				env2 := g.calleeEnv(map[string]Term{}, ins)
+				env2.siblingScope = true
+				t, err := g.eval(en.Expr, env2)
+				if err != nil {
+					continue
+				}
+				g.assume(imp(ran, t.S))
+			}
+			g.cloBind = save
+			continue
+		}
 		ce := g.closureEffects(fn, 0)
 		if ce.wild {
 			g.note("callback " + canon(fn) + " has effects outside its captured variables: everything havocked")
